@@ -86,6 +86,21 @@ theorem C02_initial_design (ne : NumEnv) (d : Decl) (ts : List Slice) (x : Confi
     (h : invAll ne (normalizedHps d.hps) ts = some x) : memSpace d x = true :=
   design_mem hw hu h
 
+/-- **C02 (RandomSearch, RegularizedEvolution, `Space.rvs` with a ConfigSpace).**  A
+configuration sampled by ConfigSpace holds values for its active hyperparameters only; completing
+it with the canonical inactive values gives a member of the declared space, provided the sample
+honours ConfigSpace's contract for the *completed* configuration `x`: values are present exactly
+for the hyperparameters active in `x`, they are members of their dimensions, and no forbidden
+clause holds. -/
+theorem C02_fill_inactive (d : Decl) (s : List (Option Val)) (x : Config)
+    (hx : fillInactive d.hps s = some x)
+    (hs : sampleOK d.hps s (activeList d x) = true)
+    (hf : d.forbs.any (forbHolds d.hps x (activeList d x)) = false) :
+    memSpace d x = true := by
+  unfold memSpace
+  simp only [Bool.and_eq_true, Bool.not_eq_true']
+  exact ⟨fillInactive_memAll hx hs, hf⟩
+
 /-! ### non-vacuity and regression witnesses -/
 
 section witnesses
@@ -124,6 +139,12 @@ example : memDim (.real (3 / 100000) 7000 .logUniform) (.real (ne1.pw 7000)) = f
 
 /-- DESIGN §6-2a: the transformed coordinate of a category (`0.0` for `"x"`) is not a member -/
 example : memDim (.cat [.str "x", .str "y", .str "w"]) (.real 0) = false := by decide +kernel
+
+/-- a ConfigSpace sample without `b` (inactive) is completed with `b = 1` -/
+example : fillInactive d1.hps [some (.str "y"), some (.int 2), none, some (.real 1)] =
+    some [.str "y", .int 2, .int 1, .real 1] := by decide +kernel
+example : sampleOK d1.hps [some (.str "y"), some (.int 2), none, some (.real 1)]
+    (activeList d1 [.str "y", .int 2, .int 1, .real 1]) = true := by decide +kernel
 
 /-- the fixed `deactivate_inactive_dimensions`: placeholder `b = 1` of an inactive `b` does not
 trigger `b == 1 ∧ m == 2`; an active `b = 1` with `m = 2` raises -/
